@@ -258,6 +258,12 @@ class WireCore(object):
         if self.cur is None:
             nxt = self.sim.next_packet()
             if nxt is None:
+                # silent now -- but a slow service may produce output within this read's timeout: then the read simply takes that long
+                gap = self.sim.next_ready_in()
+                if gap is not None and (timeout is None or gap <= max(timeout, 0)):
+                    self.clock.advance(gap + 1e-9)
+                    nxt = self.sim.next_packet()
+            if nxt is None:
                 return self._nothing(n, timeout, idx)
             pkt, s = nxt
             self._load(pkt, s)
@@ -281,6 +287,8 @@ class WireCore(object):
         c = self.cfg.get("corrupt")
         if c is not None and self.corrupted is None:
             eligible = bool(pkt.data) if c["mode"] in ("byte", "bit", "hdr", "hdr-zero") else True
+            if c["mode"] == "hdr-empty":
+                eligible = not pkt.data        # a header-only packet whose checksum field is not zero (stale value)
             if c["mode"] == "hdr-zero" and wire.payload_sum(pkt.data) == 0:
                 eligible = False
             if eligible:
@@ -294,6 +302,8 @@ class WireCore(object):
                     elif c["mode"] == "hdr":
                         i = 16 + c["pos"] % 4
                         raw[i] ^= (c["val"] % 255) + 1
+                    elif c["mode"] == "hdr-empty":
+                        raw[16:20] = (((c["val"] % 0xFFFFFFFF) + 1) & 0xFFFFFFFF).to_bytes(4, "little")
                     elif c["mode"] == "hdr-zero":
                         raw[16:20] = b"\0\0\0\0"
                     elif c["mode"] == "cmd":
